@@ -199,17 +199,19 @@ def Q.hasQueuedUnorderedMID (q : Q) (mid : BitVec 32) : Bool := q.unorderedMID.a
 /-- Go: `atomic.AddUint64(&r.nBytes, uint64(len(chunk.userData)))`. -/
 def Q.addBytes (q : Q) (n : Nat) : Q := { q with nBytes := q.nBytes + BitVec.ofNat 64 n }
 
-/-- Go: `subtractNumBytes(nBytes int)`: `if int(cur) >= nBytes { cur += -uint64(nBytes) } else { cur = 0 }`. -/
-def Q.subtractNumBytes (q : Q) (n : Int) : Q :=
-  if q.nBytes.toInt ≥ n then { q with nBytes := q.nBytes + BitVec.ofInt 64 (-n) }
-  else { q with nBytes := 0 }
+/-- Go: `subtractNumBytes(nBytes int)` on the counter:
+`if int(cur) >= nBytes { cur += -uint64(nBytes) } else { cur = 0 }`. -/
+def subBytes (cur : BitVec 64) (n : Int) : BitVec 64 :=
+  if cur.toInt ≥ n then cur + BitVec.ofInt 64 (-n) else 0
+
+def Q.subtractNumBytes (q : Q) (n : Int) : Q := { q with nBytes := subBytes q.nBytes n }
 
 def Q.getNumBytes (q : Q) : Int := q.nBytes.toInt
 
-/-- the loop `for _, c := range set.chunks { r.subtractNumBytes(len(c.userData)) }`. -/
-def Q.subtractChunks (q : Q) : List Chunk → Q
-  | [] => q
-  | c :: cs => (q.subtractNumBytes (c.len : Int)).subtractChunks cs
+/-- the loop `for _, c := range set.chunks { r.subtractNumBytes(len(c.userData)) }` (touches only the counter). -/
+def subChunks (cur : BitVec 64) : List Chunk → BitVec 64
+  | [] => cur
+  | c :: cs => subChunks (subBytes cur (c.len : Int)) cs
 
 /-- Go: `findCompleteUnorderedChunkSet`, scan part. `start = none` is `startIdx = -1`.
 Returns `(startIdx, nChunks)` when `found`. -/
@@ -245,16 +247,31 @@ inductive FindO
   | found (pre : List ChunkSet) (s : ChunkSet) (post : List ChunkSet)
   | panic
 
+def FindO.cons (s : ChunkSet) : FindO → FindO
+  | .found pre x post => .found (s :: pre) x post
+  | r => r
+
 /-- the loop in `pushWithError` looking for a fragmented set with this SSN:
-`set.ssn == ssn && set.chunks[0].isFragmented()` (index 0 of an empty slice panics). -/
-def findFragSet (ssn : BitVec 16) : List ChunkSet → List ChunkSet → FindO
-  | _, [] => .notFound
-  | pre, s :: rest =>
+`set.ssn == ssn && set.chunks[0].isFragmented()` (index 0 of an empty slice panics).
+`found pre s post`: the slice is `pre ++ s :: post` and `cset` points at `s`. -/
+def findFragSet (ssn : BitVec 16) : List ChunkSet → FindO
+  | [] => .notFound
+  | s :: rest =>
     if s.ssn == ssn then
       match s.chunks with
       | [] => .panic
-      | c0 :: _ => if c0.isFragmented then .found pre.reverse s rest else findFragSet ssn (s :: pre) rest
-    else findFragSet ssn (s :: pre) rest
+      | c0 :: _ => if c0.isFragmented then .found [] s rest else (findFragSet ssn rest).cons s
+    else (findFragSet ssn rest).cons s
+
+/-- `m[mid] = f(m[mid])` through the pointer: replaces the first (only) set with this MID. -/
+def updMID (mid : BitVec 32) (s' : ChunkSetMID) : List ChunkSetMID → List ChunkSetMID
+  | [] => []
+  | s :: rest => if s.mid == mid then s' :: rest else s :: updMID mid s' rest
+
+/-- `delete(m, mid)`: removes the first (only) set with this MID. -/
+def delMID (mid : BitVec 32) : List ChunkSetMID → List ChunkSetMID
+  | [] => []
+  | s :: rest => if s.mid == mid then rest else s :: delMID mid rest
 
 /-- Go: `pushOrderedIData`. -/
 def Q.pushOrderedIData (q : Q) (c : Chunk) : Q × Bool × Err :=
@@ -266,7 +283,7 @@ def Q.pushOrderedIData (q : Q) (c : Chunk) : Q × Bool × Err :=
       let (cset', complete, accepted) := cset.pushAndCheck c
       if !accepted then (q, false, .none)
       else
-        let q := { q with orderedMID := q.orderedMID.map (fun (s : ChunkSetMID) => if s.mid == c.mid then cset' else s) }
+        let q := { q with orderedMID := updMID c.mid cset' q.orderedMID }
         (q.addBytes c.len, complete, .none)
     | none =>
       if q.isMIDLimitReached q.orderedMID.length then (q, false, .midLimit)
@@ -290,10 +307,10 @@ def Q.pushUnorderedIData (q : Q) (c : Chunk) : Q × Bool × Err :=
       else
         let q := q.addBytes c.len
         if complete then
-          ({ q with unorderedMIDMap := q.unorderedMIDMap.filter (fun (s : ChunkSetMID) => s.mid != c.mid),
+          ({ q with unorderedMIDMap := delMID c.mid q.unorderedMIDMap,
                     unorderedMID := q.unorderedMID ++ [cset'] }, true, .none)
         else
-          ({ q with unorderedMIDMap := q.unorderedMIDMap.map (fun (s : ChunkSetMID) => if s.mid == c.mid then cset' else s) },
+          ({ q with unorderedMIDMap := updMID c.mid cset' q.unorderedMIDMap },
            false, .none)
     match q.unorderedMIDMap.find? (fun s => s.mid == c.mid) with
     | some cset => go q cset
@@ -325,7 +342,7 @@ def Q.pushWithError (q : Q) (c : Chunk) : Q × Bool × Err :=
       | .found cset rest => ({ q with unorderedChunks := rest, unordered := q.unordered ++ [cset] }, true, .none)
   else if sna16LT c.ssn q.nextSSN then (q, false, .none)
   else
-    match (if c.isFragmented then findFragSet c.ssn [] q.ordered else FindO.notFound) with
+    match (if c.isFragmented then findFragSet c.ssn q.ordered else FindO.notFound) with
     | .panic => (q, false, .panic)
     | .found pre cset post =>
       if cset.hasTSN c.tsn then (q, false, .none)
@@ -405,18 +422,18 @@ def Q.read (q : Q) (buflen : Nat) : Q × ReadRes :=
                                nextSSN := if cset.ssn == q.nextSSN then q.nextSSN + 1 else q.nextSSN }
       | [] => (q, .tryAgain)
 
-/-- the `keep` loop of `forwardTSNForOrdered`. -/
-def fwdOrderedLoop (lastSSN : BitVec 16) : List ChunkSet → Q → List ChunkSet → Q × List ChunkSet
-  | [], q, keep => (q, keep.reverse)
-  | s :: rest, q, keep =>
-    if sna16LTE s.ssn lastSSN && !s.isComplete then fwdOrderedLoop lastSSN rest (q.subtractChunks s.chunks) keep
-    else fwdOrderedLoop lastSSN rest q (s :: keep)
+/-- the `keep` loop of `forwardTSNForOrdered`: (counter, keep). -/
+def fwdOrderedLoop (lastSSN : BitVec 16) : List ChunkSet → BitVec 64 → BitVec 64 × List ChunkSet
+  | [], nb => (nb, [])
+  | s :: rest, nb =>
+    if sna16LTE s.ssn lastSSN && !s.isComplete then fwdOrderedLoop lastSSN rest (subChunks nb s.chunks)
+    else let (nb', keep) := fwdOrderedLoop lastSSN rest nb; (nb', s :: keep)
 
 /-- Go: `forwardTSNForOrdered`. -/
 def Q.forwardTSNForOrdered (q : Q) (lastSSN : BitVec 16) : Q :=
-  let (q', keep) := fwdOrderedLoop lastSSN q.ordered q []
-  let q' := { q' with ordered := keep }
-  if sna16LTE q'.nextSSN lastSSN then { q' with nextSSN := lastSSN + 1 } else q'
+  let (nb, keep) := fwdOrderedLoop lastSSN q.ordered q.nBytes
+  { q with ordered := keep, nBytes := nb,
+           nextSSN := if sna16LTE q.nextSSN lastSSN then lastSSN + 1 else q.nextSSN }
 
 /-- number of leading chunks with `!sna32GT(c.tsn, newCumulativeTSN)` = `lastIdx + 1`. -/
 def fwdUnorderedPrefix (t : BitVec 32) : List Chunk → Nat
@@ -427,31 +444,31 @@ def fwdUnorderedPrefix (t : BitVec 32) : List Chunk → Nat
 def Q.forwardTSNForUnordered (q : Q) (newCumulativeTSN : BitVec 32) : Q :=
   let k := fwdUnorderedPrefix newCumulativeTSN q.unorderedChunks
   if k > 0 then
-    { q.subtractChunks (q.unorderedChunks.take k) with unorderedChunks := q.unorderedChunks.drop k }
+    { q with nBytes := subChunks q.nBytes (q.unorderedChunks.take k), unorderedChunks := q.unorderedChunks.drop k }
   else q
 
-def fwdOrderedMIDLoop (lastMID : BitVec 32) : List ChunkSetMID → Q → List ChunkSetMID → Q × List ChunkSetMID
-  | [], q, keep => (q, keep.reverse)
-  | s :: rest, q, keep =>
-    if sna32LTE s.mid lastMID && !s.isComplete then fwdOrderedMIDLoop lastMID rest (q.subtractChunks s.chunks) keep
-    else fwdOrderedMIDLoop lastMID rest q (s :: keep)
+def fwdOrderedMIDLoop (lastMID : BitVec 32) : List ChunkSetMID → BitVec 64 → BitVec 64 × List ChunkSetMID
+  | [], nb => (nb, [])
+  | s :: rest, nb =>
+    if sna32LTE s.mid lastMID && !s.isComplete then fwdOrderedMIDLoop lastMID rest (subChunks nb s.chunks)
+    else let (nb', keep) := fwdOrderedMIDLoop lastMID rest nb; (nb', s :: keep)
 
-/-- Go: `forwardTSNForOrderedMID`. -/
+/-- Go: `forwardTSNForOrderedMID` (the `delete(r.orderedMIDMap, …)` is the same removal: one copy). -/
 def Q.forwardTSNForOrderedMID (q : Q) (lastMID : BitVec 32) : Q :=
-  let (q', keep) := fwdOrderedMIDLoop lastMID q.orderedMID q []
-  let q' := { q' with orderedMID := keep }
-  if sna32LTE q'.nextMID lastMID then { q' with nextMID := lastMID + 1 } else q'
+  let (nb, keep) := fwdOrderedMIDLoop lastMID q.orderedMID q.nBytes
+  { q with orderedMID := keep, nBytes := nb,
+           nextMID := if sna32LTE q.nextMID lastMID then lastMID + 1 else q.nextMID }
 
-def fwdUnorderedMIDLoop (lastMID : BitVec 32) : List ChunkSetMID → Q → List ChunkSetMID → Q × List ChunkSetMID
-  | [], q, keep => (q, keep.reverse)
-  | s :: rest, q, keep =>
-    if sna32LTE s.mid lastMID then fwdUnorderedMIDLoop lastMID rest (q.subtractChunks s.chunks) keep
-    else fwdUnorderedMIDLoop lastMID rest q (s :: keep)
+def fwdUnorderedMIDLoop (lastMID : BitVec 32) : List ChunkSetMID → BitVec 64 → BitVec 64 × List ChunkSetMID
+  | [], nb => (nb, [])
+  | s :: rest, nb =>
+    if sna32LTE s.mid lastMID then fwdUnorderedMIDLoop lastMID rest (subChunks nb s.chunks)
+    else let (nb', keep) := fwdUnorderedMIDLoop lastMID rest nb; (nb', s :: keep)
 
-/-- Go: `forwardTSNForUnorderedMID` (map iteration in list order). -/
+/-- Go: `forwardTSNForUnorderedMID` (map iteration in list order; the order is not observable). -/
 def Q.forwardTSNForUnorderedMID (q : Q) (lastMID : BitVec 32) : Q :=
-  let (q', keep) := fwdUnorderedMIDLoop lastMID q.unorderedMIDMap q []
-  { q' with unorderedMIDMap := keep }
+  let (nb, keep) := fwdUnorderedMIDLoop lastMID q.unorderedMIDMap q.nBytes
+  { q with unorderedMIDMap := keep, nBytes := nb }
 
 /-! ### white-box truth the harness computes by walking the Go structures -/
 
